@@ -157,10 +157,30 @@ def rule_a(ctx, ix, inv):
                 elif k == 'one':
                     inval_one.append((n, c))
         # pruned edges: the false branch of ``if is_present`` (nothing was replaced on that path)
+        # a local that remembers, from BEFORE the store, whether the key was already bound (`present = key in self._components`)
         pruned = set()
+        from .. import cond as _c
+        from ..util import single_assignments as _sa
+        defs_ = _sa(f.node)
+        remembered = {}
+        for nm, v in defs_.items():
+            if isinstance(v, ast.Compare) and len(v.ops) == 1 and isinstance(v.ops[0], (ast.In, ast.NotIn)) and \
+                    unparse(v.comparators[0]) == '%s._components' % selfname:
+                dl = [st_.lineno for st_ in ast.walk(f.node) if isinstance(st_, ast.Assign) and len(st_.targets) == 1
+                      and isinstance(st_.targets[0], ast.Name) and st_.targets[0].id == nm]
+                if dl and all(dl[0] < st_.lineno for n_, st_, w_ in writes if 'identifier' in w_):
+                    remembered[nm] = isinstance(v.ops[0], ast.In)
         for n, st in cfg.stmt.items():
-            if cfg.kind.get(n) == 'if' and unparse(st.test) in ('is_present',):
-                pruned.add((n, 'false'))
+            if cfg.kind.get(n) == 'if':
+                fm = _c.formula(st.test)
+                for nm, positive in remembered.items():
+                    try:
+                        if _c.equivalent(fm, _c.T(nm)):
+                            pruned.add((n, 'false' if positive else 'true'))
+                        elif _c.equivalent(fm, _c.Not(_c.T(nm))):
+                            pruned.add((n, 'true' if positive else 'false'))
+                    except ValueError:
+                        pass
         for n, st, w in writes:
             path = cfg.path_avoiding(n, EXIT, avoid=set(inval_all), labels_excluded=('exc', 'raise'), pruned_edges=pruned)
             if path is None:
@@ -372,6 +392,11 @@ def rule_c(ctx, ix):
 
 def _keyed_cache(ctx, R, ix, f, keyvar, compute_call, exceptions):
     """tuple `keyvar` compared with the cached one must contain every viewer_state attribute used afterwards."""
+    # the key variable by its role: the first element of the tuple stored into the cache field
+    for st in walk_no_nested(f.node):
+        if isinstance(st, ast.Assign) and any('_cache' in unparse(t) for t in st.targets) and isinstance(st.value, ast.Tuple) \
+                and st.value.elts and isinstance(st.value.elts[0], ast.Name):
+            keyvar = st.value.elts[0].id
     keydefs = [st for st in walk_no_nested(f.node) if isinstance(st, ast.Assign)
                and any(isinstance(t, ast.Name) and t.id == keyvar for t in st.targets)]
     if len(keydefs) != 1 or not isinstance(keydefs[0].value, ast.Tuple):
